@@ -15,7 +15,7 @@ def _decl_jobs(tier):
 
 PLANS['C01'] = dict(
     engine='decl', level='exploration', jobs=_decl_jobs,
-    minimums=lambda t: {'evaluations': 20000, 'histories_with_narrowing': 20, 'nlp': 20, 'declarations_on_object': 20,
+    minimums=lambda t: {'evaluations': 20000, 'histories_with_narrowing': 20, 'nlp': 20, 'declarations_on_object': 20, 'classes_with_a_provides_slot': 100,
                         'direct_declarations_with_class_specification': 100, 'factory_declarations_on_instances': 100},
     rule='Seeded random histories over generated interface DAGs and class DAGs (multiple inheritance): '
          'class creation with/without decorators, instance creation, implementer, implementer_only, '
@@ -136,7 +136,9 @@ PLANS['C07'] = dict(
     engine='registry', level='exploration', jobs=lambda tier: both(tier, (16, 1000), (16, 10000)),
     minimums=lambda t: {'subscription_queries': 8000, 'order_pairs': 3000, 'results_from_2plus_registries': 100,
                         'results_with_2plus_keys_in_one_registry': 200, 'unsubscribe_value': 100, 'unsubscribe_all': 100,
-                        'unsubscribe_with_None_required': 50, 'adapter_mutations_between_subscriptions': 500},
+                        'unsubscribe_with_None_required': 50, 'adapter_mutations_between_subscriptions': 500,
+                        'subscription_queries_repeated_after_a_declaration_change': 500, 'registry_rebasings_between_queries': 100,
+                        'rebuilds_between_queries': 100},
     rule='Random subscribe/unsubscribe histories (duplicates, equal-but-distinct and falsy values, handlers, arity 0-3, chains, keys written '
          'with None, adapters registered/overwritten/unregistered on the same provided interfaces, lookup() and lookupAll() next to the queries) and '
          'subscriptions() queries compared with a ledger: multiset equality by identity plus pairwise order rules '
@@ -194,7 +196,8 @@ PLANS['C06'] = dict(
     minimums=lambda t: {'ro_invariant_checks': 3000, 'behaviour_probes': 8000, 'rebasings': 300,
                         'rebasings_changing_a_descendant_chain': 60, 'probes_answered_by_an_ancestor': 500,
                         'components_probes': 500, 'components_rebasings': 100, 'registrations_overlapping_a_lookup': 300,
-                        'rebasings_into_inconsistent_base_lists': 200},
+                        'rebasings_into_inconsistent_base_lists': 200, 'declaration_changes_between_probes': 200,
+                        'steps_without_probes': 500},
     rule='Registry DAGs (1-5 members, chains and diamonds, one flavour per world; a fifth of the worlds may re-base into base lists without a '
          'C3 order, where a freshly built registry graph is the reference) with distinguishing registrations and '
          'subscriptions in every member; random __bases__ reassignments of any member and registrations in any member; after '
@@ -280,7 +283,7 @@ def _c14_jobs(tier):
 
 PLANS['C14'] = dict(
     engine='adapt', level='exploration', jobs=_c14_jobs, exhaustive=True,
-    minimums=lambda t: {'call_cases': 30000 if t == 'quick' else 120000, 'registry_hook_cases': 200, 'class_object_cases': 200, 'reentrant_hook_cases': 200},
+    minimums=lambda t: {'call_cases': 30000 if t == 'quick' else 120000, 'registry_hook_cases': 200, 'class_object_cases': 200, 'reentrant_hook_cases': 200, 'registry_hook_changes_above': 50},
     rule='Complete enumeration of the case product: __conform__ in {absent, returns None, returns value (plain method, staticmethod, function / functools.partial / callable object in the instance dict), body raises '
          'ValueError/TypeError/AttributeError/KeyError (also TypeError/AttributeError from a staticmethod, a function or a callable object in the '
          'instance dict), attribute access raises AttributeError / RuntimeError} x provided in '
@@ -306,7 +309,8 @@ PLANS['C17'] = dict(
     exhaustive=True,
     minimums=lambda t: {'signature_pairs': 6900, 'pairs_accepted': 1000, 'pairs_rejected': 1000, 'multi_error_cases': 800,
                         'cases_with_2plus_errors': 150, 'special_cases': 5, 'multi_overridden_method': 50, 'multi_base_depth[3]': 30,
-                        'multi_reverified_after_ancestor_rebase': 100, 'multi_keys_differing_from_description_names': 100},
+                        'multi_reverified_after_ancestor_rebase': 100, 'multi_keys_differing_from_description_names': 100,
+                        'multi_reverified_after_twin_swap': 50, 'implementations_with_keyword_only_defaults': 500},
     rule='Complete grid of (interface method signature) x (implementation signature), each over required 0-3 x defaulted 0-2 x *args '
          'x **kwargs (48 x 48 = 2304 pairs) in three forms (plain function on the instance, bound method, verifyClass with self); '
          'the admitted call shapes of the interface signature are built explicitly and tried with inspect.signature(impl).bind; '
